@@ -302,7 +302,7 @@ func genC02Inspect(x *Ctx) (string, interface{}, error) {
 		{"labelOnlyWithoutId", strings.Contains(isoTxt, "if len(hasLabelIdx) > 0 && !idOpt {")},
 		{"firstIndexUsed", strings.Contains(isoTxt, "idx := hasIDIdx[0]") && strings.Contains(isoTxt, "idx := hasLabelIdx[0]")},
 		{"startIsBareV", strings.Contains(isoTxt, "if v.V != nil && len(v.V.Values) > 0 { break }")},
-		{"extractEqWithinOnly", strings.Contains(ehvTxt, "switch cond.Condition { case gripql.Condition_EQ: if l, ok := val.(string); ok { vals = []string{l} } case gripql.Condition_WITHIN: v := val.([]interface{}) for _, x := range v { vals = append(vals, x.(string)) } default: }")},
+		{"extractEqWithinOnly", strings.Contains(ehvTxt, "switch cond.Condition { case gripql.Condition_EQ: if l, ok := val.(string); ok { vals = []string{l} } case gripql.Condition_WITHIN: v, ok := val.([]interface{}) if !ok { return []string{} } for _, x := range v { s, ok := x.(string) if !ok { return []string{} } vals = append(vals, s) } default: }")},
 	}
 
 	sort.Strings(keepers)
